@@ -1,8 +1,10 @@
 package types
 
 import (
+	"bytes"
 	"encoding/json"
 	"fmt"
+	"sort"
 
 	"github.com/pokt-network/pocket-core/codec"
 	"github.com/pokt-network/pocket-core/crypto"
@@ -355,6 +357,11 @@ func NormalizeRewardDelegators(
 			RewardShare: rewardShare,
 		})
 	}
+	// Go map iteration order is random: callers pay the delegators in this order and the order in which new
+	// accounts are written decides the shape (and hash) of the state tree, so the order must be canonical.
+	sort.Slice(normalized, func(i, j int) bool {
+		return bytes.Compare(normalized[i].Address, normalized[j].Address) < 0
+	})
 	return normalized, nil
 }
 
